@@ -52,7 +52,8 @@ def run(res):
             st = r["case"]["sets"]
             res.violation("encode did not complete: " + r["desc"], r["log"][-1000:],
                           key={"kind": "incomplete", "hierarchical_levels": st.get("hierarchical_levels", 4),
-                               "intra_refresh_type": st.get("intra_refresh_type", 1), "logical_processors": st.get("logical_processors")})
+                               "intra_refresh_type": st.get("intra_refresh_type", 1), "logical_processors": st.get("logical_processors"),
+                               "intra_period_length": st.get("intra_period_length", -2), "crashed": int(r["rc"] in (-11, 139, -6, 134))})
             continue
         be, errs, pk = stream.bitstream_events(r, n_expected=n, expect={"hdrdig": ""})
         b.add("Bitstream", be, r["desc"])
